@@ -22,9 +22,9 @@ RULES = sorted(rules_ref.PREDICATES)
 
 def space(tier):
     if tier == "thorough":
-        parts = [spaces.block_space("rule", 3), spaces.block_space("core", 3), spaces.block_space("wide", 2)]
+        parts = [spaces.block_space("rule", 3), spaces.block_space("core", 3), spaces.block_space("wide", 2), spaces.mix_space(tier)]
     else:
-        parts = [spaces.block_space("rule", 2), spaces.block_space("core", 3), spaces.block_space("wide", 1)]
+        parts = [spaces.block_space("rule", 2), spaces.block_space("core", 3), spaces.block_space("wide", 1), spaces.mix_space(tier)]
     return spaces.UnionSpace(f"rules-{tier}", parts)
 
 
@@ -94,7 +94,27 @@ def evaluate(text):
             if j is not None and fail is None:
                 fail = (f"{rule}:{j[0]}:default", dict(j[1], rule=rule, configuration={}))
         if fail is None and len(text) <= 40:
+            kinds = {b["kind"] for b in m.blocks}
+            relevant = {
+                "md003": "heading" in kinds,
+                "md004": "bullet_list" in kinds,
+                "md009": any(l.endswith(" ") for l in m.lines),
+                "md010": "\t" in text,
+                "md012": "\n\n\n" in "\n" + text,
+                "md013": any(len(l) > 12 for l in m.lines),
+                "md022": "heading" in kinds,
+                "md025": "heading" in kinds,
+                "md026": "heading" in kinds,
+                "md035": "hr" in kinds,
+                "md041": True,
+                "md046": bool(kinds & {"fence", "code_block"}),
+                "md048": "fence" in kinds,
+            }
             for rule, grid in rules_ref.GRIDS.items():
+                if not relevant.get(rule, True):
+                    res.setdefault("count", {})
+                    res["count"]["grid_points_pruned_construct_absent"] = res["count"].get("grid_points_pruned_construct_absent", 0) + len(grid)
+                    continue
                 for cfg in grid:
                     rr = app.run_main(configs.config_args(f"only:{rule}") + _set_args(rule, cfg) + ["scan", "t.md"], sb)
                     res["feeds"] += 1
